@@ -524,6 +524,7 @@ func v2Oracle(rs []v2R, script []v2Item, r *v2Runner) v2Fails {
 		}
 	}
 	consumed := 0
+	emptyArmed := false // the deadline is armed because an empty route list handed over without clearing it
 	ended := ""            // "term" / "drop" / "herr" / "panic": nothing may run afterwards
 	lastRun := map[int]int{} // per invocation: index of the last route that ran
 	fbCount := map[int]int{}
@@ -542,6 +543,8 @@ func v2Oracle(rs []v2R, script []v2Item, r *v2Runner) v2Fails {
 			}
 		}
 		switch e.kind {
+		case "clr", "arm":
+			emptyArmed = false
 		case "run":
 			seenInv[e.inv] = true
 			if e.armed {
@@ -579,7 +582,8 @@ func v2Oracle(rs []v2R, script []v2Item, r *v2Runner) v2Fails {
 				fails.add("C02:router:fallback-twice", where+": the fallback of one route list was called again")
 			}
 			if e.armed {
-				if len(e.rs) == 0 {
+				if len(e.rs) == 0 || emptyArmed {
+					emptyArmed = true
 					fails.add("C05:router:deadline-armed-at-fallback-empty-routes", where+": empty route list calls its fallback with the matching deadline still armed")
 				} else {
 					fails.add("C05:router:deadline-armed-at-fallback", where+": matching deadline still armed when the fallback is called")
